@@ -386,7 +386,12 @@ class _SktimeForecaster(BaseForecaster):
             )
             # refit with updated data, not only passed data; the horizon may not
             # have been given yet (it can still be passed to `predict`)
+            cutoff = self.cutoff
             self.fit(self._y, self._X, self._fh)
+            # the cutoff is the end of the data passed to update, as without
+            # refitting (fit puts it at the end of everything remembered, which
+            # differs for a batch that ends earlier)
+            self._set_cutoff(cutoff)
         return self
 
     def update_predict(
